@@ -505,6 +505,7 @@ def C20(rep, prog, tier):
     preocf.pickled_state(rep, ex)
     preocf.impacts_keys(rep, ex)
     preocf.impacts_accept(rep, ex)
+    preocf.impacts_factories(rep, ex)
     preocf.format_agree(rep, ex)
 
 
